@@ -481,10 +481,60 @@ struct RunOut {
     differing: Option<(u64, String)>,
 }
 
-fn run_group(g: &Group, verif_seed: u64, k: u64, xproc: Option<(&str, u64, u64)>) -> RunOut {
-    let gen_one = |hs: u64| match xproc {
-        Some((fb, seed, idx)) => generate_in_child(fb, seed, idx, hs),
-        None => generate(g, hs),
+/// The real command-line generator (`bin/wit-bindgen-cli`, built from /repo) with the
+/// getrandom seam preloaded: under hash seed 0 it generates into a scratch directory, under
+/// every other seed it runs in `--check` mode against that directory, which must succeed.
+fn cli_run(g: &Group, idx: u64, hs: u64) -> Outcome {
+    let exe = std::env::current_exe().map_err(|e| format!("current_exe: {e}"))?;
+    let bin = exe.parent().unwrap();
+    let dir = std::env::temp_dir().join(format!("verif-cli-{}-{idx}", std::process::id()));
+    let Src::Path(path) = &g.src else { return Err("cli families run on the corpus".into()) };
+    let mut last = String::new();
+    for world in [None, Some("imports")] {
+        let mut c = std::process::Command::new(bin.join("wit-bindgen-cli"));
+        c.env("LD_PRELOAD", bin.join("getrandom_shim.so")).env("VERIF_HASH_SEED", hs.to_string());
+        c.arg(if g.backend == "csharp" { "c-sharp" } else { g.backend }).args(g.flags).arg("--out-dir").arg(&dir);
+        if hs != 0 {
+            c.arg("--check");
+        }
+        if let Some(w) = world {
+            c.args(["--world", w]);
+        }
+        c.arg(path);
+        let mut o = c.output().map_err(|e| format!("spawn wit-bindgen-cli: {e}"))?;
+        if o.status.success() && hs == 0 {
+            // once more into the same directory: the set of generated files may depend on what is
+            // already there (the C++ backend writes `X.h` for a user class once and `X.h.template`
+            // from then on), and check mode is judged against the settled directory
+            o = c.output().map_err(|e| format!("spawn wit-bindgen-cli: {e}"))?;
+        }
+        if o.status.success() {
+            return Ok([("<output directory>".to_string(), b"up to date".to_vec())].into_iter().collect());
+        }
+        last = String::from_utf8_lossy(&o.stderr).lines().filter(|l| !l.starts_with("Generating ")).last().unwrap_or("").to_string();
+        if hs != 0 || !(last.contains("world") || last.contains("World")) {
+            break;
+        }
+    }
+    Err(if hs != 0 { format!("check mode reports: {last}") } else { last })
+}
+fn cli_cleanup(idx: u64) {
+    let _ = std::fs::remove_dir_all(std::env::temp_dir().join(format!("verif-cli-{}-{idx}", std::process::id())));
+}
+
+#[derive(Clone, Copy)]
+enum Mode<'a> {
+    InProcess,
+    /// (family base, verif seed, run index)
+    XProc(&'a str, u64, u64),
+    Cli(u64),
+}
+
+fn run_group(g: &Group, verif_seed: u64, k: u64, mode: Mode) -> RunOut {
+    let gen_one = |hs: u64| match mode {
+        Mode::XProc(fb, seed, idx) => generate_in_child(fb, seed, idx, hs),
+        Mode::Cli(idx) => cli_run(g, idx, hs),
+        Mode::InProcess => generate(g, hs),
     };
     let base = gen_one(0);
     let mut h: u64 = 0xcbf29ce484222325;
@@ -506,12 +556,18 @@ fn run_group(g: &Group, verif_seed: u64, k: u64, xproc: Option<(&str, u64, u64)>
     h = h.wrapping_mul(0x100000001b3);
     let mut differing = None;
     for i in 1..=k {
-        let hs = mix(verif_seed, i);
+        if matches!(mode, Mode::Cli(_)) && !ok {
+            break; // nothing was generated: nothing to check
+        }
+        let hs = mix(verif_seed, i) | 1;
         let o = gen_one(hs);
         if let Some(d) = diff(&base, &o) {
             differing = Some((hs, d));
             break;
         }
+    }
+    if let Mode::Cli(idx) = mode {
+        cli_cleanup(idx);
     }
     RunOut { hash: h, gens: 1 + k, ok, desc, differing }
 }
@@ -550,7 +606,7 @@ fn main() {
     match cmd {
         "groups" => {
             let fam = args.get(2).cloned().unwrap_or("corpus".into());
-            for (i, g) in groups(1, fam_base(&fam).trim_start_matches("xproc-")).iter().enumerate() {
+            for (i, g) in groups(1, fam_base(&fam).trim_start_matches("xproc-").trim_start_matches("cli-")).iter().enumerate() {
                 println!("{i} {} {} {:?}", g.world_name, g.backend, g.flags);
             }
         }
@@ -569,6 +625,11 @@ fn main() {
                 Some(r) => (true, r.to_string()),
                 None => (false, fb_full.clone()),
             };
+            let (cli, fb) = match fb.strip_prefix("cli-") {
+                Some(r) => (true, r.to_string()),
+                None => (false, fb),
+            };
+            let xproc = xproc || cli; // (for the accounting below: generations happen in other processes)
             let mut gs = Groups::new(seed, &fb);
             let t0 = std::time::Instant::now();
             let (mut hashes, mut nontrivial) = (vec![], vec![]);
@@ -580,7 +641,7 @@ fn main() {
                 let (g, round) = gs.at(idx);
                 let g = &g;
                 let before = unsafe { GETRANDOM_CALLS };
-                let r = run_group(g, mix(seed, round), k, if xproc { Some((&fb, seed, idx)) } else { None });
+                let r = run_group(g, mix(seed, round), k, if cli { Mode::Cli(idx) } else if xproc { Mode::XProc(&fb, seed, idx) } else { Mode::InProcess });
                 let calls = unsafe { GETRANDOM_CALLS } - before;
                 if calls == 0 && !xproc {
                     println!("HARNESS-ERROR \"the getrandom seam was never called: hash keys are not under the simulator's control\"");
@@ -601,7 +662,7 @@ fn main() {
                     let msg = format!("world {} / backend {} / options {:?}: output {}under hash seed {hs} differs from hash seed 0: {d}", g.world_name, g.backend, g.flags, if xproc { "of a separate process " } else { "" });
                     println!(
                         "VIOLATION-JSON {{\"family\":\"{fam}\",\"run_index\":{idx},\"verif_seed\":{seed},\"class\":\"{}\",\"site\":\"{}\",\"message\":{},\"steps\":{},\"trace_hash\":\"{:016x}\",\"choices\":[],\"trace\":[{}]}}",
-                        if xproc { "NONDET-XPROC" } else { "NONDET" },
+                        if cli { "NONDET-CLI" } else if xproc { "NONDET-XPROC" } else { "NONDET" },
                         g.backend,
                         jstr(&msg),
                         r.gens,
